@@ -239,7 +239,18 @@ func (np *NetworkPolicy) ruleSelectsPeer(rulePeers []netv1.NetworkPolicyPeer, pe
 			peerMatchesNamespaceSelector := false
 			var err error
 			if rulePeers[i].NamespaceSelector == nil {
-				peerMatchesNamespaceSelector = (np.ObjectMeta.Namespace == peer.GetPeerPod().Namespace)
+				if isPeerRepresentative(peer) {
+					// a representative peer stands for pods of the policy's namespace iff its namespace selector is exactly
+					// the name label of that namespace (the peer may have been inferred from an equivalent rule of another
+					// policy that spells the namespace with a namespaceSelector, then it has no namespace of its own)
+					policyNsSelector := &metav1.LabelSelector{MatchLabels: map[string]string{common.K8sNsNameLabelKey: np.ObjectMeta.Namespace}}
+					peerMatchesNamespaceSelector, err = SelectorsFullMatch(policyNsSelector, peer.GetPeerPod().RepresentativeNsLabelSelector)
+					if err != nil {
+						return false, err
+					}
+				} else {
+					peerMatchesNamespaceSelector = (np.ObjectMeta.Namespace == peer.GetPeerPod().Namespace)
+				}
 			} else {
 				peerNamespace := peer.GetPeerNamespace()
 				var peerNsLabels map[string]string
